@@ -331,10 +331,10 @@ def oracle_norm(case: dict) -> Outcome:
 
 
 STREAMS_EXTRA = {
-    "warmup_long": Stream("warmup_long", oracle=oracle_warmup, strategy=strategy_warmup_long, quick=48, thorough=800, shards_quick=8, shards_thorough=16),
+    "warmup_long": Stream("warmup_long", oracle=oracle_warmup, strategy=strategy_warmup_long, quick=48, thorough=400, shards_quick=8, shards_thorough=16),
 }
 STREAMS = {
-    "warmup": Stream("warmup", oracle=oracle_warmup, strategy=strategy_warmup, quick=3000, thorough=80000, shards_quick=16, shards_thorough=16),
-    "norm": Stream("norm", oracle=oracle_norm, strategy=strategy_norm, quick=1000, thorough=30000, shards_quick=16, shards_thorough=16),
+    "warmup": Stream("warmup", oracle=oracle_warmup, strategy=strategy_warmup, quick=3000, thorough=30000, shards_quick=16, shards_thorough=16),
+    "norm": Stream("norm", oracle=oracle_norm, strategy=strategy_norm, quick=1000, thorough=10000, shards_quick=16, shards_thorough=16),
 }
 STREAMS.update(STREAMS_EXTRA)
